@@ -204,3 +204,9 @@ def gen_catchall(V, repo):
         subset(V, "catchall[%s]#covers_every_hash_shaped_token" % magic, spec, L)
         # with an opening quote in front as well
         subset(V, "catchall[%s]#covers_quoted_token" % magic, z3.Concat(lit('"'), spec), L)
+        # ... and never reaches beyond the token: a closing quote, a ';' terminator and white space end it (C08:
+        # the same secret whatever the quoting and surrounding punctuation; C09: quotes and terminators kept in place)
+        anyc = z3.Star(z3.Range(chr(0), chr(0x2FF)))
+        stop = z3.Union(lit('"'), lit(";"), lit(" "), lit("\t"), lit("\n"))
+        emit_empty(V, "catchall[%s]#stops_at_quote_terminator_and_space" % magic,
+                   z3.Intersect(L, z3.Concat(z3.Range(chr(0), chr(0x2FF)), anyc, stop, anyc)))
